@@ -249,6 +249,8 @@ func main() {
 		must(os.WriteFile(filepath.Join(*out, "stats.json"), b, 0o644))
 	case "c07child":
 		c07Child(os.Args[2:])
+	case "c17child":
+		c17Child(os.Args[2:])
 	case "c19child":
 		c19Child(os.Args[2:])
 	case "c08child":
